@@ -115,6 +115,20 @@ pub fn run_case(case: &Case, props: &[&str], with_counts: bool) -> CaseResult {
     } else {
         true
     };
+    // C05: the same case through the other two ways of producing a stream must give the same bytes
+    let modes_equal = if props.contains(&"C05") {
+        let others: Vec<Mode> = match &case.mode {
+            Mode::St => vec![Mode::Mt(2), Mode::Fl],
+            Mode::Mt(w) => vec![Mode::St, Mode::Mt(w % 3 + 1), Mode::Fl],
+            Mode::Fl => vec![Mode::St, Mode::Mt(3)],
+        };
+        others.iter().all(|m| match enc::encode(&case.cfg, case.source(), m) {
+            Outcome::Ok(s) => enc::stream_bytes(&s).map_or(false, |b| b == bytes && outcome == "ok"),
+            _ => false,
+        })
+    } else {
+        true
+    };
     let g = &case.g;
     // A stream far larger than the raw PCM (the estimate-based candidate selection can emit
     // frames of tens of megabytes) is reported by size only: C09 judges it, the other
@@ -134,7 +148,7 @@ pub fn run_case(case: &Case, props: &[&str], with_counts: bool) -> CaseResult {
         "family": case.family, "relation": case.relation,
         "cfg": serde_json::to_string(&case.cfg).unwrap(),
         "outcome": outcome, "detail": detail,
-        "nbytes": nbytes_real, "rawbytes": raw, "bytes": bytes, "twin_equal": twin_equal,
+        "nbytes": nbytes_real, "rawbytes": raw, "bytes": bytes, "twin_equal": twin_equal, "modes_equal": modes_equal,
         "delivery": format!("{:?}", case.delivery),
         "count": stream.as_ref().map_or(-1i64, |s| if with_counts { s.count_bits() as i64 } else { -1 }),
     })];
@@ -224,10 +238,42 @@ pub fn gen_cases(profile: &str, seed: u64, b: &Budget) -> Vec<Case> {
             _ => {}
         }
         cfg.block_size = bs;
-        let n = gen::length(&mut rng, bs, b.max_frames);
+        // every 40th case is a long stream of tiny blocks: frame numbers beyond one byte
+        // (>= 128; in the thorough tier also >= 2048), extreme frames late in the stream
+        let long = idx % 40 == 7 && profile != "c13";
+        if long {
+            bs = 32 + idx % 5;
+            cfg.block_size = bs;
+            cfg.use_lpc = false;
+        }
+        let mut n = gen::length(&mut rng, bs, b.max_frames);
+        let mut ch = ch;
+        if long {
+            ch = 1 + idx % 2;
+            let frames = if b.cases > 2000 && idx % 80 == 7 { rng.gen_range(2049..2200) } else { rng.gen_range(129..300) };
+            n = frames * bs - rng.gen_range(0..bs);
+            family = if idx % 80 == 7 { "silence" } else { "noise_lo" }.to_string();
+        }
         let g = Geometry { ch, bps, rate: gen::rate(&mut rng), bs, n };
-        let chans = gen::signal(&mut rng, &family, &relation, ch, bps, n);
+
+        let mut chans = gen::signal(&mut rng, &family, &relation, ch, bps, n);
+        if long && n > 200 * bs {
+            // a loud burst in one late frame and a constant one in another: the unique largest and
+            // smallest frames carry multi-byte frame numbers
+            let hi = (1i64 << (bps - 1)) - 1;
+            let f1 = 130 + idx % 60;
+            for t in f1 * bs..(f1 + 1) * bs {
+                chans[0][t] = rng.gen_range(-hi..=hi) as i32;
+            }
+            let f2 = 131 + (idx * 7) % 60;
+            for c in chans.iter_mut() {
+                for t in f2 * bs..(f2 + 1) * bs {
+                    c[t] = 0;
+                }
+            }
+        }
         let delivery = if rng.gen_bool(0.3) { Delivery::Bytes } else { Delivery::Ints };
+        let family = if long { format!("long:{family}") } else { family };
         let case = Case {
             id: format!("{profile}-{seed}-{idx}"),
             g,
